@@ -68,6 +68,22 @@ def rank_problems(n, res, probs_expected=None, cmp=None):
     return probs
 
 
+def _mixed_games(shape, count=120):
+    """alternative witnesses for a sat rank obligation: games with close totals and very different sigmas (the free-value
+    abstraction cannot say which real game realises a pattern; these are tried on the real code after the equal-sigma one)"""
+    import random
+    rng = random.Random(11)
+    out = [{'teams': [[(30.0 / k, 8.0 / k ** 0.5)] * k if i == 0 else [((30.0 if i == 1 else 28.0 - 0.5 * i) / k, 0.5 / k ** 0.5)] * k for i, k in enumerate(shape)]}]
+    for _ in range(count):
+        g = []
+        for k in shape:
+            mu = rng.choice([25.0, 26.0, 27.0, 28.0, 30.0, 30.0]) + rng.choice([0.0, 0.0, 0.3, -0.4])
+            sg = rng.choice([0.3, 0.5, 2.0, 8.0, 8.0, 12.0])
+            g.append([(mu / k, sg / k ** 0.5)] * k)
+        out.append({'teams': g})
+    return out
+
+
 def run_rank(spec, ctx):
     import z3
     from sx import core
@@ -92,7 +108,15 @@ def run_rank(spec, ctx):
             self.k = 0
 
         def cdf(self, x):
-            v = core.Sym(z3.Real(vnames[self.k]))
+            if self.k < len(vnames):
+                v = core.Sym(z3.Real(vnames[self.k]))
+            else:
+                # more CDF evaluations than predict_rank needs (a variant that also consults predict_win, say): further free values
+                nm = f'vx{self.k}'
+                core.INPUT_FACTS[nm] = core.F(0.0, True, 1.0, True)
+                eng_ = core.ENG
+                eng_.base += [z3.Real(nm) > 0, z3.Real(nm) < 1]
+                v = core.Sym(z3.Real(nm), s=tuple(0.3 + 0.05 * ((self.k + i) % 7) for i in range(len(eng_.env))))
             self.k += 1
             return v
 
@@ -188,7 +212,8 @@ def run_rank(spec, ctx):
         else:
             r, m = eng.check(timeout=20000)
             vals = core.model_inputs(m, vnames) if r == 'sat' else None
-            cand = None if vals is None else {'mode': 'rank', 'model': key, 'shape': list(shape), 'v': [vals[x] for x in vnames]}
+            cand = None if vals is None else {'mode': 'rank', 'model': key, 'shape': list(shape), 'v': [vals[x] for x in vnames],
+                                              '__alts__': _mixed_games(shape)}
             ctx.ob('rank clauses: ' + problems[0], 'sat' if cand else 'unknown', cand)
         ctx.add_engine(eng)
 
@@ -267,7 +292,10 @@ def replay(cand):
     p = [sum(v[a * (n - 1):(a + 1) * (n - 1)]) for a in range(n)]
     levels = sorted(set(p))
     m = Model()
-    teams = [[m.rating((20.0 + 2.5 * levels.index(p[i])) / k, 4.0 / k ** 0.5) for _ in range(k)] for i, k in enumerate(shape)]
+    if cand.get('teams'):
+        teams = [[m.rating(a, b) for (a, b) in t] for t in cand['teams']]
+    else:
+        teams = [[m.rating((20.0 + 2.5 * levels.index(p[i])) / k, 4.0 / k ** 0.5) for _ in range(k)] for i, k in enumerate(shape)]
     res = [tuple(x) for x in m.predict_rank(teams)]
     pr = [x[1] for x in res]
 
